@@ -200,6 +200,39 @@ func loopbackOptions() {
 	}
 }
 
+// loopbackSequences: every ordered triple of constructor results (one of each
+// constructor, two notes on the same channel, real-time and a sysex among
+// them) through one listener: each arrives with its value, whatever was sent
+// before it.
+func loopbackSequences() {
+	msgs := []midi.Message{
+		midi.NoteOn(3, 60, 100), midi.NoteOn(3, 62, 1), midi.NoteOff(3, 60), midi.PolyAfterTouch(0, 1, 2), midi.ControlChange(9, 7, 127),
+		midi.ProgramChange(2, 5), midi.AfterTouch(2, 99), midi.Pitchbend(1, -8192),
+		midi.SPP(4000), midi.MTC(0x35), midi.SongSelect(9), midi.Tune(), midi.TimingClock(), midi.SysEx([]byte{1, 2}),
+	}
+	for i := range msgs {
+		for j := range msgs {
+			for k := range msgs {
+				l := ls.NewLoop(ls.All(64))
+				ctx.Eval()
+				for pos, x := range []int{i, j, k} {
+					ctx.Add("loopback_sequence_sends", 1)
+					_, c := l.Send(msgs[x])
+					got := l.Take()
+					if c.Panicked || len(got) != 1 || !bytes.Equal(got[0].Msg, msgs[x]) {
+						sig := "loopback:sequence:" + midi.Message(msgs[x]).Type().String()
+						if c.Panicked {
+							sig = c.Sig + ":" + sig
+						}
+						report(sig, "sequence", []int{i, j, k, pos}, msgs[x], fmt.Sprintf("sent [% X] [% X] [% X] through one listener: message %d arrived as [%s] %s", []byte(msgs[i]), []byte(msgs[j]), []byte(msgs[k]), pos+1, ls.RenderDeliveries(got), c.Value))
+						break
+					}
+				}
+			}
+		}
+	}
+}
+
 // ownership: what a constructor returns belongs to the caller (no shared
 // tables, no cached messages): the first result is overwritten in place, the
 // constructor called again with the same arguments.
@@ -417,7 +450,7 @@ func main() {
 		bend(lp, bendCh[j], ctx.Pick(16, 1))
 	})
 	// system common
-	ctx.Jobs("loopback-options", 1, func(int) { loopbackOptions(); ownership() })
+	ctx.Jobs("loopback-options", 1, func(int) { loopbackOptions(); ownership(); loopbackSequences() })
 	ctx.Jobs("syscommon", 4, func(j int) {
 		lp := newLoop()
 		for p := j; p < 65536; p += 4 {
